@@ -254,6 +254,27 @@ Example populate_labels_stale_read_leaks :
   populate_labels origin prev lbl (fun _ => false) [1; 0] 0 = true.
 Proof. split; reflexivity. Qed.
 
+(* fixVertex sorts the incident edges of a vertex (collected in map order) with radialLess, which is
+   a strict total order on direction vectors (integer carrier: exact on the lattice) ... *)
+Theorem radial_less_strict_total :
+  (forall a, radial_ltb a a = false) /\
+  (forall a b c, radial_ltb a b = true -> radial_ltb b c = true -> radial_ltb a c = true) /\
+  (forall a b, radial_ltb a b = false -> radial_ltb b a = false -> a = b).
+Proof. exact (conj radial_ltb_irrefl (conj radial_ltb_trans radial_ltb_total)). Qed.
+Print Assumptions radial_less_strict_total.
+(* ... so the successor relation it installs around the vertex is the same for every order
+   (incident edges with pairwise different directions; with <= 2 edges no sort is done and the
+   cyclic order is unique anyway) *)
+Theorem fix_vertex_order_free : forall inc inc' : list (nat * (Z * Z)),
+  (forall x y, In x inc -> In y inc -> snd x = snd y -> x = y) ->
+  Permutation inc inc' -> Permutation (fix_vertex inc) (fix_vertex inc').
+Proof. exact fix_vertex_order_free_lemma. Qed.
+Print Assumptions fix_vertex_order_free.
+Example fix_vertex_example :
+  fix_vertex [(7, (0, 1)%Z); (8, (1, 0)%Z); (9, (-1, 0)%Z); (5, (0, -2)%Z)] = [(5, 8); (8, 7); (7, 9); (9, 5)] /\
+  fix_vertex [(9, (-1, 0)%Z); (5, (0, -2)%Z); (7, (0, 1)%Z); (8, (1, 0)%Z)] = [(5, 8); (8, 7); (7, 9); (9, 5)].
+Proof. vm_compute. split; reflexivity. Qed.
+
 (* vertexRecord.location returns the location of whichever incident edge the map yields first:
    harmless iff all incident edges agree (they do when the face labels around the vertex are
    consistent; not proved here - the overlay construction is not modelled; explored by the harness) *)
